@@ -119,4 +119,7 @@ example :
     let g : Graph := [{ id := 1, time := 1, parents := [] }, { id := 2, time := 2, parents := [1] }]
     walkWant true g [1] [] 0 false 10 [(2, 0)] [] [] [] 0 = .ok (some ([2], [2], [1, 2], 2)) := by decide
 
+/-- a fetch that retries after a stream error first drops the cookie of the interrupted upload-pack session (otherwise the remote resumes after the packfile that was cut short) -/
+theorem C09_fact_fetchRetryResetsCookies : Facts.fetchRetryResetsCookies = true := by decide
+
 end Wrgl
